@@ -133,11 +133,12 @@ class PyFn:
 class Str:
     """An opaque or concrete string.  `s` is a Python str when concrete, else None; `parts` keeps
     what it was built from (for diagnostics inspection)."""
-    __slots__ = ("s", "parts")
+    __slots__ = ("s", "parts", "captures")
 
     def __init__(self, s=None, parts=()):
         self.s = s
         self.parts = parts
+        self.captures = None
 
     def __repr__(self):
         return "Str(%r)" % (self.s if self.s is not None else self.parts,)
